@@ -113,14 +113,6 @@ def step (line : String) : String :=
       else if sumAbsArea2 tris != absR (shoelace2 p) then "FAIL:absarea"
       else "OK"
     | _, _ => "BAD"
-  | ["propm", r, ts] =>
-    -- malformed rings: only the unconditional conclusions (fan_count / ear_count, fan_area / ear_area)
-    match parseRing? r, parseTris? ts with
-    | some p, some tris =>
-      if tris.length + 2 != p.length then "FAIL:count"
-      else if sumArea2 tris != shoelace2 p then "FAIL:area"
-      else "OK"
-    | _, _ => "BAD"
   | _ => "BAD"
 
 def main : IO Unit := loop step
